@@ -147,6 +147,18 @@ PROPS["C14"] = {
     "assumptions": [TIME_RANGE, "a fault is an error returned by the object store for the request (transport error or expired deadline); the request has no effect"],
 }
 
+PROPS["C02"] = {
+    "harnesses": [
+        {"pkg": ".", "dir": "s3db", "entry": "VerifH_C02_history",
+         "quick": {"params": "stmts=3,writers=2", "workers": 16, "timeout": 1200},
+         "thorough": {"params": "stmts=4,writers=2", "workers": 16, "timeout": 7200}},
+    ],
+    "bounds": {"quick": "one key, two non-key columns, 3 statements (kind, assigned columns, write time and values symbolic; distinct write times), 2 writers, one optional commit+refresh point, every merge order at the final open",
+               "thorough": "4 statements"},
+    "outside": "more than 2 columns, more than 4 statements per key",
+    "assumptions": [TIME_RANGE, "SQLite passes every column to xUpdate on INSERT; UPDATE/DELETE reach the table only for rows visible to the connection"],
+}
+
 # Properties not (yet) claimed, each with the reason.  Kept current by hand.
 NOT_APPLICABLE = {
     "C%02d" % i: "check not built yet in this session (breadth-first build order, DESIGN §9); no claim is made" for i in range(1, 21)
